@@ -486,8 +486,21 @@ package libinjection
 //@   ensures  [C01 C08] @nocomment result != sqliTokenTypeComment
 //@   ensures  [C01] @fp3 result == sqliTokenTypeFingerprint && len(key) == 3 && key[0] < 128 && key[1] < 128 && key[2] < 128 ==> up(key[2]) == 'C' || up(key[2]) == 'U'
 
+// ---- C18 oracle: where a quoted literal ends.
+// bsRunA(a, lo, j): number of consecutive backslashes ending just before absolute index j, not going below lo.
+// scanEnd(a, lo, i, hi, d): absolute index of the first closing delimiter at or after i for a literal whose content
+// starts at lo (a delimiter preceded by an odd backslash run is skipped; a doubled delimiter is skipped as a pair);
+// hi if there is none. Both are recursive spec functions, unfolded only at explicit hints.
+//@ specrec bsRunA(a array, lo int, j int) int = j <= lo ? 0 : (sel(a, j - 1) == '\\' ? 1 + bsRunA(a, lo, j - 1) : 0)
+//@ specrec scanEnd(a array, lo int, i int, hi int, d int) int = firstAbs(a, i, hi, d) >= hi ? hi :
+//@      (odd(bsRunA(a, lo, firstAbs(a, i, hi, d))) ? scanEnd(a, lo, firstAbs(a, i, hi, d) + 1, hi, d) :
+//@       ((firstAbs(a, i, hi, d) + 1 < hi && sel(a, firstAbs(a, i, hi, d) + 1) == d) ? scanEnd(a, lo, firstAbs(a, i, hi, d) + 2, hi, d) : firstAbs(a, i, hi, d)))
 //@ func isBackslashEscaped
 //@   modifies nothing
+//@   unfold   bsRunA(arr(str), off(str), off(str) + len(str))
+//@   ensures  [C18] @parity result <==> odd(bsRunA(arr(str), off(str), off(str) + len(str)))
+//@   loop 1 invariant [C18] bsRunA(arr(str), off(str), off(str) + len(str)) == count + bsRunA(arr(str), off(str), off(str) + i + 1)
+//@   loop 1 unfold bsRunA(arr(str), off(str), off(str) + i + 1)
 //@   loop 1 invariant -1 <= i && i < len(str) && 0 <= count && count <= len(str) - 1 - i
 //@   loop 1 decreases i + 1
 
@@ -511,7 +524,14 @@ package libinjection
 // and leaves in *s.current either the zero token (white space) or a faithful token inside [p, r).
 //@ spec lexOK(s *sqliState, r int) bool = wfS(s) && stepOK(s, old(s.pos), r) && s.current.category != 0
 
+//@ spec coreEnd(s string, pos int, offset int, d int) int = scanEnd(arr(s), off(s) + pos + offset, off(s) + pos + offset, off(s) + len(s), d) - off(s)
+//@ spec corePost(t *sqliToken, s string, pos int, offset int, d int, r int) bool = t.pos == pos + offset && t.len == min(coreEnd(s, pos, offset, d) - (pos + offset), 31) &&
+//@      t.strOpen == (offset > 0 ? d : 0) && t.strClose == (coreEnd(s, pos, offset, d) < len(s) ? d : 0) &&
+//@      r == (coreEnd(s, pos, offset, d) < len(s) ? coreEnd(s, pos, offset, d) + 1 : len(s))
 //@ func (*sqliToken).parseStringCore
+//@   ensures  [C18] @first_terminator corePost(t, s, pos, offset, delimiter, result)
+//@   loop 1 invariant [C18] scanEnd(arr(s), off(s) + pos + offset, off(s) + pos + offset, off(s) + len(s), delimiter) == scanEnd(arr(s), off(s) + pos + offset, off(str), off(s) + len(s), delimiter)
+//@   loop 1 unfold scanEnd(arr(s), off(s) + pos + offset, off(str), off(s) + len(s), delimiter)
 //@   requires length == len(s) && 0 <= pos && 0 <= offset && pos + offset <= len(s)
 //@   modifies t.category, t.pos, t.len, t.val, t.strOpen, t.strClose
 //@   ensures  [C01 C16] @token t.category == sqliTokenTypeString && t.pos == pos + offset && 0 <= t.len && t.len <= 31 && aliases(t.val, s[pos+offset : pos+offset+t.len])
@@ -526,10 +546,15 @@ package libinjection
 //@   modifies s.current.category, s.current.pos, s.current.len, s.current.val
 //@   ensures  [C01 C16] @lex lexOK(s, result) && s.current.category == sqliTokenTypeComment && s.current.pos == old(s.pos)
 
+//@ spec dd2At(s *sqliState, k int) bool = k + 1 < s.length && s.input[k] == '$' && s.input[k+1] == '$'
 //@ func parseMoney
 //@   requires wfS(s) && s.pos < s.length && s.input[s.pos] == '$'
 //@   modifies s.current.*
 //@   ensures  [C01 C16] @lex lexOK(s, result)
+//@   ensures  [C18] @dollar2 let p = old(s.pos) in (p + 1 < s.length && s.input[p+1] == '$') ==>
+//@                 s.current.category == sqliTokenTypeString && s.current.strOpen == '$' && s.current.pos == p + 2 &&
+//@                 (s.current.strClose == '$' ==> dd2At(s, result - 2) && p + 2 <= result - 2 && (forall k in [p + 2, result - 2): !dd2At(s, k)) && s.current.len == min(result - 2 - (p + 2), 31)) &&
+//@                 (s.current.strClose != '$' ==> s.current.strClose == 0 && result == s.length && (forall k in [p + 2, s.length): !dd2At(s, k)) && s.current.len == min(s.length - (p + 2), 31))
 
 //@ func parseOther
 //@   requires wfS(s) && s.pos < s.length
@@ -582,6 +607,7 @@ package libinjection
 //@   requires wfS(s) && s.pos < s.length
 //@   modifies s.current.category, s.current.pos, s.current.len, s.current.val, s.current.strOpen, s.current.strClose
 //@   ensures  [C01 C16] @lex lexOK(s, result) && s.current.category == sqliTokenTypeString
+//@   ensures  [C18] @core corePost(s.current, s.input, old(s.pos), 1, s.input[old(s.pos)], result)
 
 //@ func parseWord
 //@   requires wfS(s) && s.pos < s.length && wordAccept(s.input[s.pos]) != 1
@@ -595,6 +621,8 @@ package libinjection
 //@   requires wfS(s) && s.pos < s.length
 //@   modifies s.current.*, s.pos
 //@   ensures  [C01 C16] @lex wfS(s) && stepOK(s, old(s.pos), result) && s.current.category == sqliTokenTypeVariable
+//@   ensures  [C18] @core let q = old(s.pos) + ((old(s.pos) + 1 < s.length && s.input[old(s.pos)+1] == '@') ? 2 : 1) in
+//@                 (q < s.length && (s.input[q] == '`' || s.input[q] == '\'' || s.input[q] == '"')) ==> corePost(s.current, s.input, q, 1, s.input[q], result)
 
 //@ func parseNumber
 //@   requires wfS(s) && s.pos < s.length && ((s.input[s.pos] >= '0' && s.input[s.pos] <= '9') || s.input[s.pos] == '.')
@@ -611,16 +639,32 @@ package libinjection
 //@   requires wfS(s) && s.pos < s.length
 //@   modifies s.current.category, s.current.pos, s.current.len, s.current.val, s.current.strOpen, s.current.strClose
 //@   ensures  [C01 C16] @lex lexOK(s, result)
+//@   ensures  [C18] @core corePost(s.current, s.input, old(s.pos), 1, '`', result)
 
 //@ func parseUString
 //@   requires wfS(s) && s.pos < s.length && wordAccept(s.input[s.pos]) != 1
 //@   modifies s.current.*, s.pos
 //@   ensures  [C01 C16] @lex wfS(s) && stepOK(s, old(s.pos), result) && s.current.category != 0
+//@   ensures  [C18] @core old(s.pos) + 2 < s.length && s.input[old(s.pos)+1] == '&' && s.input[old(s.pos)+2] == '\'' ==>
+//@                 s.current.category == sqliTokenTypeString && s.current.pos == old(s.pos) + 3 && s.current.strOpen == 'u' &&
+//@                 s.current.len == min(coreEnd(s.input, old(s.pos) + 2, 1, '\'') - (old(s.pos) + 3), 31) &&
+//@                 s.current.strClose == (coreEnd(s.input, old(s.pos) + 2, 1, '\'') < s.length ? 'u' : 0) &&
+//@                 result == (coreEnd(s.input, old(s.pos) + 2, 1, '\'') < s.length ? coreEnd(s.input, old(s.pos) + 2, 1, '\'') + 1 : s.length)
 
+//@ spec qClose(c int) int = c == '(' ? ')' : (c == '[' ? ']' : (c == '{' ? '}' : (c == '<' ? '>' : c)))
+//@ spec qEndAt(s *sqliState, k int, c int) bool = k + 1 < s.length && s.input[k] == c && s.input[k+1] == '\''
 //@ func parseQStringCore
 //@   requires wfS(s) && s.pos < s.length && wordAccept(s.input[s.pos]) != 1 && (offset == 0 || offset == 1)
 //@   modifies s.current.*
 //@   ensures  [C01 C16] @lex lexOK(s, result)
+//@   ensures  [C18] @first_terminator let q = old(s.pos) + offset in
+//@                 (q + 2 < s.length && (s.input[q] == 'q' || s.input[q] == 'Q') && s.input[q+1] == '\'' && s.input[q+2] >= 33) ==>
+//@                 s.current.category == sqliTokenTypeString && s.current.strOpen == 'q' && s.current.pos == q + 3 &&
+//@                 (s.current.strClose == 'q' || s.current.strClose == 0) &&
+//@                 (s.current.strClose == 'q' ==> qEndAt(s, result - 2, qClose(s.input[q+2])) && q + 3 <= result - 2 && (forall k in [q + 3, result - 2): !qEndAt(s, k, qClose(s.input[q+2]))) &&
+//@                       s.current.len == min(result - 2 - (q + 3), 31)) &&
+//@                 (s.current.strClose == 0 ==> result == s.length && (forall k in [q + 3, s.length): !qEndAt(s, k, qClose(s.input[q+2]))) &&
+//@                       s.current.len == min(s.length - (q + 3), 31))
 
 //@ func parseQString
 //@   requires wfS(s) && s.pos < s.length && wordAccept(s.input[s.pos]) != 1
@@ -631,6 +675,7 @@ package libinjection
 //@   requires wfS(s) && s.pos < s.length && wordAccept(s.input[s.pos]) != 1
 //@   modifies s.current.*
 //@   ensures  [C01 C16] @lex lexOK(s, result)
+//@   ensures  [C18] @core old(s.pos) + 2 < s.length && s.input[old(s.pos)+1] == '\'' ==> corePost(s.current, s.input, old(s.pos), 2, '\'', result) && s.current.category == sqliTokenTypeString
 
 //@ func parseXString
 //@   requires wfS(s) && s.pos < s.length && wordAccept(s.input[s.pos]) != 1
@@ -646,6 +691,7 @@ package libinjection
 //@   requires wfS(s) && s.pos < s.length && wordAccept(s.input[s.pos]) != 1
 //@   modifies s.current.*
 //@   ensures  [C01 C16] @lex lexOK(s, result)
+//@   ensures  [C18] @core old(s.pos) + 2 < s.length && s.input[old(s.pos)+1] == '\'' ==> corePost(s.current, s.input, old(s.pos), 2, '\'', result) && s.current.category == sqliTokenTypeString
 
 //@ func parseBWord
 //@   requires wfS(s) && s.pos < s.length
@@ -672,6 +718,8 @@ package libinjection
 //@   ensures  wfS(s) && statsOK(s) && sameScan(s) && old(s.pos) <= s.pos && s.statsFolds == old(s.statsFolds)
 //@   ensures  [C01 C16] @step result ==> stepOK(s, old(s.pos), s.pos) && s.current.category != 0 && s.statsTokens == old(s.statsTokens) + 1
 //@   ensures  [C01 C16] @end !result ==> (s.length == 0 || s.pos == s.length) && s.statsTokens == old(s.statsTokens)
+//@   ensures  [C18] @virtual old(s.pos) == 0 && (s.flags & 6) != 0 && s.length > 0 ==>
+//@                 result && corePost(s.current, s.input, 0, 0, ((s.flags & 2) != 0 ? '\'' : '"'), s.pos) && s.current.category == sqliTokenTypeString
 //@   loop 1 invariant wfS(s) && statsOK(s) && sameScan(s) && old(s.pos) <= s.pos && zeroT(s.current) && s.statsTokens == old(s.statsTokens) && s.statsFolds == old(s.statsFolds)
 //@   loop 1 decreases s.length - s.pos
 
